@@ -92,6 +92,7 @@ type ecOp struct {
 	flipNext  bool   // the handler changes what Config.Next looks at (after the middleware has decided)
 	dup       bool   // the handler sets the first cookie twice (other path first): the later call replaces the earlier
 	path      string // "/set" or "/refresh"
+	rawLine   int    // /logout: 0 = through c.Cookie; 1, 2 = the handler writes the Set-Cookie line itself, in a spelling fasthttp's cookie parser rejects
 	seen      map[string]string
 	encFailed bool            // an injected Encryptor error fired in this request
 	decFailed map[string]bool // values for which an injected Decryptor error fired
@@ -313,6 +314,13 @@ func (env *ecEnv) mkApp(k string, wrap bool) *fiber.App {
 	app.Post("/logout", func(c fiber.Ctx) error {
 		op := env.ops[atoi(c.Get("X-Op"))]
 		for i, ck := range op.sets {
+			if op.rawLine > 0 && ck.kind == "text" {
+				// a line as another component hands it on (an upstream's Set-Cookie, a helper library): plain token
+				// value, an expiry attribute in a spelling fasthttp does not parse
+				attr := [...]string{"", "Max-Age=-1", "Expires=Sunday, 06-Nov-94 08:49:37 GMT"}[op.rawLine]
+				c.Response().Header.Add("Set-Cookie", ck.name+"="+op.vals[i]+"; Path=/; "+attr)
+				continue
+			}
 			c.Cookie(&fiber.Cookie{Name: ck.name, Value: op.vals[i], Path: "/", HTTPOnly: ck.httpOnly, Expires: time.Now().Add(-24 * time.Hour)})
 		}
 		return c.SendString("bye")
@@ -823,6 +831,10 @@ func (cl *ecClient) run() {
 	if cl.plan.logout && !s.Failed() && !cl.dead {
 		op := cl.setAll(cl.cookies, false)
 		op.path = "/logout"
+		op.rawLine = simrt.PickS(s, 0, 0, 1, 2)
+		if op.rawLine > 0 {
+			s.Count("probe_set_cookie_line_written_by_hand")
+		}
 		resp := cl.do(&cl.connCur, b, "POST", "/logout", op)
 		if cl.dead {
 			return
